@@ -12,6 +12,7 @@ package streamreader
 // whoever copies from this reader would otherwise store a truncated upload as complete.
 //@ func (*reader).Read
 //@   requires wf:       r != nil && r.stream != nil && r.buf.blen >= 0
+//@   modifies reader.err, bytes.Buffer.blen, mem[uint8]
 //@   ensures  noswallow: r.err != nil && !is(r.err, io.EOF) && result1 != nil ==> result1 == r.err
 //@   ensures  eof:       is(result1, io.EOF) ==> (r.err != nil && is(r.err, io.EOF)) || len(p) == 0 || result1 == r.err
 //@   ensures  sticky:    old(r.err) != nil ==> r.err == old(r.err)
